@@ -27,6 +27,9 @@ import PcbV.Lemmas.UserFnCall
   current at the call — the SAME completed names for the save, the binding and the restore
   (`saved_names_are_bound_names`).
 
+  `restore_puts_back_the_saved_descriptor`: the restore writes the saved pointer itself, whatever the
+  variable reads at that moment — the caller's variable is restored as storage, not only as a value.
+
   Not proved (gap, covered by the correspondence run only): that the concrete evaluator `evalE` of the
   driver (which keeps operands of `+` on the root stack, `withRoot`) is `Framed`.
 -/
@@ -377,6 +380,50 @@ theorem params_bound_during_body (f : Fn) (av L1 L2 : List (Bytes × Slot)) (x :
       slotPtr_of_getLoc _ k p (by rw [B2.getLoc_s]; exact hp)
     simp only [readH, hfi, hgv2, Option.getD, hsp]
     rw [g2.deref, f2.deref, B2.deref]
+
+/-- **The restore puts back the saved DESCRIPTOR itself** — unconditionally, whatever the variable reads
+    at that moment (for instance the same text as the saved value, because the argument had it): after
+    `leave`, the pointer cell of a string parameter holds the pointer of its registered clone (the
+    caller's own string, relocated by collections if any), so the caller's variable never ends up
+    sharing the argument's storage; a numeric parameter holds the saved number.  (For a repeated name
+    the last saved entry is written last; all entries of one name are clones of the same cell.) -/
+theorem restore_puts_back_the_saved_descriptor (f : Fn) (saved L1 L2 : List (Bytes × Slot))
+    (x : Bytes × Slot) (t : St) (hw : WF t.h) (hsv : saved = L1 ++ x :: L2) (hlast : ∀ y ∈ L2, y.1 ≠ x.1) :
+    match x.2 with
+    | .num q => getNum (leave f saved t) x.1 = q
+    | .str k => ∀ p i, getLoc t.h (.s k) = some p → findIdx x.1 t.h.scalars 0 = some i →
+        getV (leave f saved t).h (.sc i) = some p := by
+  obtain ⟨name, v⟩ := x
+  subst hsv
+  unfold leave
+  rw [writeAll_append]
+  have hw0 : WF ({ t with busy := t.busy.erase f.idx } : St).h := hw
+  obtain ⟨B1, B2, _, _, _⟩ := writeAll_frame false L1 { t with busy := t.busy.erase f.idx } hw0
+  simp only [writeAll]
+  obtain ⟨f1, f2, f3, f4, f5, f6, f7⟩ :=
+    writeVar_facts false name v (writeAll false L1 { t with busy := t.busy.erase f.idx }) B1
+  obtain ⟨g1, g2, g3, g4, g5⟩ :=
+    writeAll_frame false L2 (writeVar false name v (writeAll false L1 { t with busy := t.busy.erase f.idx })) f1
+  cases v with
+  | num q =>
+    show getNum (writeAll false L2 _) name = q
+    rw [g5 name (fun y hy _ _ => hlast y hy), f6 q rfl, getNum_setNum_same]
+  | str k =>
+    intro p i hp hi
+    have hi1 : findIdx name (writeAll false L1 { t with busy := t.busy.erase f.idx }).h.scalars 0 = some i := by
+      rw [B2.findIdx_eq]; exact hi
+    have hcell : (writeAll false L2 (writeVar false name (.str k)
+          (writeAll false L1 { t with busy := t.busy.erase f.idx }))).h.scalars[i]?
+        = (writeVar false name (.str k) (writeAll false L1 { t with busy := t.busy.erase f.idx })).h.scalars[i]? := by
+      apply g4 i
+      intro y hy k' _ he
+      rw [f2.findIdx_eq] at he
+      exact hlast y hy (findIdx_inj _ _ _ i he hi1)
+    have hgv := f7 k i rfl hi1
+    have hsp : slotPtr (writeAll false L1 { t with busy := t.busy.erase f.idx }).h k = p :=
+      slotPtr_of_getLoc _ k p (by rw [B2.getLoc_s]; exact hp)
+    simp only [getV] at hgv ⊢
+    rw [hcell, hgv, hsp]
 
 /-- the first entry of the argument list is the converted value of the first argument expression (and
     the rest is the argument list of the remaining parameters, evaluated afterwards) -/
